@@ -30,6 +30,7 @@ name->sha256 of the source directory, before and after the single CLI call of th
 import os
 import re
 import sys
+import time
 
 sys.path.insert(0, os.path.dirname(os.path.abspath(__file__)))
 import threading
@@ -78,7 +79,7 @@ def build_cases():
     def add(cmd, dev, stname, fail=None, **kw):
         n = len(L.story(stname, ""))
         c = {"cmd": cmd, "dev": dev, "story": stname, "sfx": sfx, "fail": fail,
-             "cuts": kw.pop("cuts", None) or mk_cuts(rng, n + 4), "txnone": False, "fk": False, "sum": "valid", "ckpt": False, "late": None, "busy": None, "empty": None}
+             "cuts": kw.pop("cuts", None) or mk_cuts(rng, n + 4), "txnone": False, "fk": False, "sum": "valid", "ckpt": False, "late": None, "busy": None, "empty": None, "delim": None, "slow": None, "lock_timeout": None}
         c.update(kw)
         c["id"] = len(cases)
         cases.append(c)
@@ -193,6 +194,34 @@ def build_cases():
             devs = states if not ctx.quick() else ["tables+rows", [s_ for s_ in states if s_ != "tables+rows"][(ci * 7 + ei2 + ctx.seed) % (len(states) - 1)]]
             for dev in devs:
                 add(cmd, dev, "A", None, empty=emp, cuts=[1])
+    # ---- family 7: a statement that is a block of several commands (custom '-- atlas:delimiter' file) fails at its
+    #      2nd … last command, after earlier commands of the same statement have taken effect. lo=0: the block is the very
+    #      FIRST statement the replay executes; lo=1: one ordinary statement precedes it. ----
+    rng = ctx.rand("c14", "cases-delim")
+    multi = [k for k in kinds if len(L.FAIL_KINDS[k]) > 1]      # the failing command is preceded by commands of its own
+    for ci, cmd in enumerate(L.SQL_CMDS):
+        for si, slot in enumerate(L.CMDS[cmd]["slots"]):
+            stname = L.STORIES[(ci + si + ctx.seed) % len(L.STORIES)]
+            n = slot_len(cmd, slot, stname)
+            if ctx.quick():
+                # first statement: setup of the kind + failing command (pos 0), and story commands + failing block (pos 1..2)
+                picks = [(0, 0, multi[(ci + si + ctx.seed) % len(multi)]), (0, rng.randrange(1, min(n, 3) + 1), kinds[rng.randrange(len(kinds))]),
+                         (1, rng.randrange(2, max(2, min(n, 4)) + 1), kinds[rng.randrange(len(kinds))])]
+            else:
+                picks = [(0, 0, k) for k in multi] + [(lo, pos, k) for lo in (0, 1) for pos in range(lo + 1, min(n, 4) + 1) for k in kinds]
+            for lo, pos, kind in picks:
+                add(cmd, L.EMPTY_STATES[ei % 3], stname, {"slot": slot, "pos": pos, "kind": kind}, delim={"slot": slot, "lo": lo})
+                ei += 1
+            add(cmd, L.EMPTY_STATES[ei % 3], stname, None, delim={"slot": slot, "lo": 0})   # control: the block succeeds
+            ei += 1
+    # ---- family 8: a replay that takes much longer than --lock-timeout (the lock itself is free) ----
+    rows = 2000000
+    slow = [("diff-sql", "dir", "100ms"), ("diff-sql", "dir", None)]
+    if not ctx.quick():
+        slow += [("diff-sql", "b", "100ms"), ("diff-hcl", "dir", "100ms"), ("diff-sdir", "sdir", "100ms"), ("diff-emptydir", "b", "100ms"),
+                 ("apply-sql", "b", "100ms"), ("apply-sql", "b", None), ("apply-sdir", "sdir", "100ms")]
+    for i, (cmd, slot, lt) in enumerate(slow):
+        add(cmd, L.EMPTY_STATES[(i + ctx.seed) % 3], "C", None, slow={"slot": slot, "at": 2, "rows": rows}, lock_timeout=lt, cuts=[2])
     return cases
 
 
@@ -231,14 +260,26 @@ def materialise(c, d):
     def slot_stmts(slot):
         base = {"dir": st, "a": st[:max(1, len(st) // 2)], "b": st if cmd == "diff-sql-synced" else st + [extra],
                 "sdir": st + [extra]}[slot]
+        if c.get("slow") and c["slow"]["slot"] == slot:
+            k = min(c["slow"]["at"], len(base))
+            base = base[:k] + L.slow_stmts(c["sfx"], c["slow"]["rows"]) + base[k:]
         return L.with_failure(base, fail if fail and fail["slot"] == slot else None)
+
+    def delim_text(slot, stmts, failidx):
+        """None, or the single-file text of the slot when the case asks for a custom-delimiter file in it: the
+        commands from index `lo` up to and including the failing one (or `hi` without a failure) are ONE statement."""
+        dl = c.get("delim")
+        if not dl or dl["slot"] != slot:
+            return None
+        hi = failidx + 1 if failidx is not None else min(len(stmts), dl["lo"] + 3)
+        return L.delim_file(stmts, min(dl["lo"], hi - 1), hi)
 
     os.makedirs(os.path.join(src, "mig"), exist_ok=True)
     files = {"schema.hcl": L.HCL_OK, "other.hcl": L.HCL_OTHER, "broken.hcl": L.HCL_BROKEN}
-    sa, _ = slot_stmts("a")
-    sb, _ = slot_stmts("b")
-    files["a.sql"] = L.one_file(sa)
-    files["b.sql"] = L.one_file(sb)
+    sa, fa = slot_stmts("a")
+    sb, fb = slot_stmts("b")
+    files["a.sql"] = delim_text("a", sa, fa) or L.one_file(sa)
+    files["b.sql"] = delim_text("b", sb, fb) or L.one_file(sb)
     empty = c.get("empty") or {}
     if "sql" in empty:
         files["a.sql"] = files["b.sql"] = L.EMPTY_TEXT[empty["sql"]]
@@ -246,8 +287,10 @@ def materialise(c, d):
         files["schema.hcl"] = files["other.hcl"] = L.EMPTY_TEXT[empty["hcl"]]
     write_files(src, files)
     # SQL schema directory: .sql files only, no atlas.sum, not named "migrations"
-    ss, _ = slot_stmts("sdir")
+    ss, fs = slot_stmts("sdir")
     sfiles, _ = L.cut_files(ss, c["cuts"])
+    if delim_text("sdir", ss, fs):
+        sfiles = {"01": delim_text("sdir", ss, fs)}
     if "sdir" in empty:
         write_files(os.path.join(src, "schemadir"), {"README.md": "# no schema yet\n"} if empty["sdir"] == "readme-only" else {})
     else:
@@ -266,6 +309,8 @@ def materialise(c, d):
             ck = "20240101000099_ckpt.sql"
             mig[ck] = "-- atlas:checkpoint\n\n" + L.one_file(sd)
             spans = [(n_, -1, -1) for n_, _, _ in spans] + [(ck, 0, len(sd))]
+        elif delim_text("dir", sd, failidx):
+            mig, spans = {"20240101000001_f1.sql": delim_text("dir", sd, failidx)}, [("20240101000001_f1.sql", 0, len(sd))]
         else:
             mig, spans = L.cut_files(sd, c["cuts"], txnone=c["txnone"])
         info["nfiles"] = len(mig)
@@ -308,8 +353,10 @@ def run_case(c, verbose=False):
     before, dir_before = L.observe(dev), dump_dir(src)
     q = (["_fk=1"] if c["fk"] else []) + (["_busy_timeout=%d" % c["busy"]] if c.get("busy") else [])
     url = "sqlite://" + dev + ("?" + "&".join(q) if q else "")
-    args = L.argv(cmd, src, url, target, c.get("late"))
+    args = L.argv(cmd, src, url, target, c.get("late"), c.get("lock_timeout"))
+    t_run = time.time()
     rc, out, err = ctx.atlas_run(args, d)
+    t_run = time.time() - t_run
     with ctx.lock:
         _runs[0] += 1
     after, dir_after = L.observe(dev), dump_dir(src)
@@ -319,6 +366,20 @@ def run_case(c, verbose=False):
     kind = c["fail"]["kind"] if c["fail"] else "none"
     if c.get("late"):
         pc = "after-replay:" + c["late"]
+    if c.get("delim"):
+        pc = "multi-command-statement:%s:%s" % ("first-statement" if c["delim"]["lo"] == 0 else "later-statement",
+                                               ("fails-at-command-%d" % (c["fail"]["pos"] - c["delim"]["lo"] + len(L.fail_block(kind))) if c["fail"] else "ok"))
+        ctx.count("variant:multi-command-statement")
+        if c["fail"] and devcls == "empty":
+            ctx.count("multi-command-%s-statement-fails-after-earlier-commands:%s" % ("first" if c["delim"]["lo"] == 0 else "later", "reached(exit!=0)" if rc != 0 else "not-reached(exit0)"))
+    if c.get("slow"):
+        lt = c.get("lock_timeout") or "default"
+        pc = "slow-replay:%s:lock-timeout=%s" % (c["slow"]["slot"], lt)
+        events["elapsed_s"] = round(t_run, 2)
+        ctx.count("variant:slow-replay")
+        if lt != "default":
+            # the run is only a test of "the lock timeout does not bound the replay" when it outlasted the timeout
+            ctx.count("slow-replay:%s" % ("outlasted-lock-timeout-x3" if t_run >= 3 * L.dur_s(lt) else "NOT-slower-than-lock-timeout"))
     if c.get("empty"):
         pc = "empty-input:" + ",".join("%s=%s" % kv for kv in sorted(c["empty"].items()))
         ctx.count("variant:empty-input")
@@ -467,7 +528,7 @@ def run_case(c, verbose=False):
         take = skey in _want_samples and not viol
         _want_samples.discard(skey) if take else None
     if take:
-        ctx.sample({"cmd": " ".join(args[:2]), "case": {k: c.get(k) for k in ("cmd", "dev", "story", "fail", "txnone", "fk", "sum", "ckpt", "late", "empty")},
+        ctx.sample({"cmd": " ".join(args[:2]), "case": {k: c.get(k) for k in ("cmd", "dev", "story", "fail", "txnone", "fk", "sum", "ckpt", "late", "empty", "delim", "slow", "lock_timeout")},
                     "rc": rc, "outcome": oc, "stderr": norm_msg(err), "dev_before": [m[:2] for m in before["master"]],
                     "dev_after": [m[:2] for m in after["master"]], "dev_bytes_identical": same_bytes, "dir_delta": dd}, cap=6)
     return bool(viol)
@@ -485,7 +546,8 @@ def main():
     cnt = ctx.counters
     need = ["outcome:ok", "outcome:refused-not-clean", "outcome:statement-error", "dev-class:empty", "dev-class:nonempty", "late-failure-reached",
             "empty-input-on-nonempty-dev:refused", "empty-input-on-nonempty-dev:stopped-before-dev(no-files)",
-            "inspection-failure-reached:columns", "inspection-failure-reached:indexes", "inspection-failure-reached:fks"]
+            "inspection-failure-reached:columns", "inspection-failure-reached:indexes", "inspection-failure-reached:fks",
+            "multi-command-first-statement-fails-after-earlier-commands:reached(exit!=0)", "slow-replay:outlasted-lock-timeout-x3"]
     missing = [k for k in need if not cnt.get(k)]
     reached, notreached = cnt.get("injected-failure:reached(exit!=0)", 0), cnt.get("injected-failure:not-reached(exit0)", 0)
     ctx.finish("dev file dumped by python sqlite3 + sha256 + source dir hashes around every CLI call: non-empty dev => refused "
